@@ -35,6 +35,7 @@ def plan(tier, seed):
             units.append({'kind': 'binary', 'ver': v, 'part': q})
         units.append({'kind': 'translate', 'ver': v})
         units.append({'kind': 'misc', 'ver': v})
+        units.append({'kind': 'codepoints', 'ver': v})
     return {
         'units': units,
         'bounds': {'core_alphabet': len(CORE), 'extended_alphabet': len(EXT), 'unary_strings': len(strings(CORE, 3)) + len(strings(EXT, 2)),
@@ -264,6 +265,31 @@ def run_misc(ver, tier, acc):
     acc.sample({'version': ver, 'expression': 'codepoints-to-string((65, 0))', 'expected': 'FOCH0001'})
 
 
+def run_codepoints(ver, tier, acc):
+    """every single code point below U+0300 and the boundary code points of the planes, alone and between two letters, through the
+    functions whose definition is per code point"""
+    S = setup(ver)
+    cps = list(range(1, 0x300)) + [0x2000, 0x2003, 0x2028, 0x3000, 0xD7FF, 0xE000, 0xFFFD, 0x10000, 0x1F600, 0x10FFFF]
+    if tier != 'quick':
+        cps += list(range(0x300, 0x3000, 7))
+    for cp in cps:
+        if not M.is_xml_char(cp) and cp not in range(1, 32) and cp != 0x7F:
+            continue
+        for s in (chr(cp), 'a' + chr(cp) + 'b', chr(cp) + 'x' + chr(cp)):
+            a = {'s': s}
+            judge(acc, S, ver, 'string-length', 'string-length($s)', ('val', len(s)), a, lxable=M.is_xml_char(cp))
+            judge(acc, S, ver, 'normalize-space', 'normalize-space($s)', ('val', M.normalize_space(s)), a, lxable=M.is_xml_char(cp))
+            if ver != '1.0':
+                judge(acc, S, ver, 'encode-for-uri', 'encode-for-uri($s)', ('val', M.encode_for_uri(s)), a)
+                judge(acc, S, ver, 'iri-to-uri', 'iri-to-uri($s)', ('val', M.iri_to_uri(s)), a)
+                judge(acc, S, ver, 'escape-html-uri', 'escape-html-uri($s)', ('val', M.escape_html_uri(s)), a)
+                judge(acc, S, ver, 'upper-case', 'upper-case($s)', ('val', s.upper()), a)
+                judge(acc, S, ver, 'lower-case', 'lower-case($s)', ('val', s.lower()), a)
+                if M.is_xml_char(cp):
+                    judge(acc, S, ver, 'codepoints-roundtrip', 'codepoints-to-string(string-to-codepoints($s))', ('val', s), a)
+    acc.sample({'version': ver, 'expression': 'escape-html-uri("\\x7f")', 'expected': '%7F'})
+
+
 def run_unit(unit, tier, acc):
     k, ver = unit['kind'], unit['ver']
     if k == 'substring':
@@ -274,6 +300,8 @@ def run_unit(unit, tier, acc):
         run_binary(ver, unit['part'], tier, acc)
     elif k == 'translate':
         run_translate(ver, tier, acc)
+    elif k == 'codepoints':
+        run_codepoints(ver, tier, acc)
     else:
         run_misc(ver, tier, acc)
 
@@ -294,6 +322,7 @@ def replay(case, acc):
         else:
             for q in range(4):
                 run_unary(ver, q, 'quick', acc)
+            run_codepoints(ver, 'quick', acc)
     elif case['kind'] == 'inline':
         run_substring(ver, 'quick', acc)
     else:
